@@ -3,7 +3,7 @@
     map iteration order; a read-only shared store); the schedules the Go scheduler actually produces
     and the memory model are observed on the running code under the race detector, not proved. *)
 From Coq Require Import Sorting.Sorted Sorting.Permutation.
-From MowCli Require Import Base Nfa Matchers Apply Values Cmd ValueProofs OrderProofs SortProofs NamedProofs Generated Tie.
+From MowCli Require Import Base Nfa Matchers Apply Values Cmd ValueProofs OrderProofs SortProofs NamedProofs RerunProofs Generated Tie.
 
 Section C20.
   Variable parse_float : str -> option str.
@@ -89,7 +89,23 @@ Section C20.
       NoDup o1 -> (forall k, In k o1 -> k < length args) -> Permutation o1 o2 ->
       go_sorted nat (name_at args) o1 -> go_sorted nat (name_at args) o2 -> o1 = o2.
   Proof. exact (sorted_visit_is_a_function_args parse_float getenv). Qed.
+
+  (** (i-4) one application OBJECT given the same line twice: fsm.Parse leaves the containers changed (values, SetByUser,
+      ValueSetFromEnv cleared where the line gave a value) and the second Run starts from there. For variables of the
+      built-in kinds and a command none of whose options is backed by the environment, the second parse of the same
+      line accepts and leaves every container exactly as the first did. With an environment-backed option this
+      fails ([C20_rerun_with_env_refuted]: the quirk Q12, outside the property's quantifier, like Q10). *)
+  Theorem C20_rerun_same_line :
+    forall i argv opts' args',
+      Forall plain (i_opts i) -> Forall plain (i_args i) ->
+      Forall (fun c => ct_fromenv c = false) (i_opts i) ->
+      fsm_parse parse_float i argv = PAccept opts' args' ->
+      fsm_parse parse_float (after_run i opts' args') argv = PAccept opts' args'.
+  Proof. exact (rerun_same_line parse_float). Qed.
 End C20.
+
+Example C20_rerun_with_env_refuted : q12_second_verdict = Some false.
+Proof. exact rerun_with_env_refuted. Qed.
 
 (** Go's order on strings, on the names of the witness of D11 and of the seeded change C20-Q: "a aa" < "b bb",
     "N" < "n num" (upper case first), a proper prefix first *)
@@ -160,5 +176,6 @@ Print Assumptions C20_any_visiting_order.
 Print Assumptions C20_sorted_visit_is_a_function.
 Print Assumptions C20_sorted_visit_is_a_function_args.
 Print Assumptions C20_fill_order_of_an_accepted_line_is_unique.
+Print Assumptions C20_rerun_same_line.
 Print Assumptions C20_noninterference.
 Print Assumptions C20_shared_store_is_read_only.
